@@ -5,8 +5,8 @@ import core, gen
 from core import sx, enc_note, enc_chord, py_res, show_opt_int
 
 ID = 'C09'
-LEAN_MODULES = ['MV.Props.C09']
-LEAN_HELPERS = ['MV.Lemmas.Window', 'MV.Lemmas.Asc', 'MV.Model.Rel', 'MV.Model.Pitch', 'MV.Model.Basic']
+LEAN_MODULES = ['MV.Props.C09', 'MV.Props.C09b']
+LEAN_HELPERS = ['MV.Lemmas.RelShift', 'MV.Lemmas.Window', 'MV.Lemmas.Asc', 'MV.Model.Rel', 'MV.Model.Pitch', 'MV.Model.Basic']
 DRIVERS = ['C01']
 GEN = ['Tables', 'Library']
 RULE = ('(chord, relative note, previous pitch) triples: 8 relative kinds x pcs of real chords (7-, 12-, 3..7-tone '
